@@ -264,6 +264,9 @@ func (self Reflect) listSlice(v reflect.Value, onChange OnListValueChange) node.
 				appendedItem := v.Index(v.Len() - 1)
 				return self.child(appendedItem), key, nil
 			} else if key != nil {
+				if !isKeyValid(key) {
+					return nil, nil, fmt.Errorf("invalid key for %v", r.Path.String())
+				}
 				if entries == nil {
 					var err error
 					entries, err = self.buildKeys(r.Selection, r.Meta.KeyMeta(), v)
@@ -335,6 +338,9 @@ func (self Reflect) listMap(v reflect.Value) node.Node {
 		OnNext: func(r node.ListRequest) (node.Node, []val.Value, error) {
 			var item reflect.Value
 			key := r.Key
+			if (r.New || key != nil) && !isKeyValid(key) {
+				return nil, nil, fmt.Errorf("invalid key for %v", r.Path.String())
+			}
 			if r.New {
 				item = self.create(e, nil)
 				keyVal := reflect.ValueOf(key[0].Value())
@@ -428,7 +434,7 @@ func (self Reflect) childMap(v reflect.Value) node.Node {
 		OnField: func(r node.FieldRequest, hnd *node.ValueHandle) error {
 			mapKey := reflect.ValueOf(r.Meta.Ident())
 			if r.Write {
-				if r.Clear {
+				if r.Clear || hnd.Val == nil {
 					v.SetMapIndex(mapKey, reflect.Value{})
 				} else {
 					v.SetMapIndex(mapKey, reflect.ValueOf(hnd.Val.Value()))
@@ -556,7 +562,9 @@ func (self Reflect) WriteFieldWithFieldName(fieldName string, m meta.Leafable, p
 		panic(fmt.Sprintf("Invalid property \"%s\" on %s", fieldName, elemVal.Type()))
 	}
 	if v == nil {
-		panic(fmt.Sprintf("No value given to set %s", m.Ident()))
+		// writing no value is clearing
+		fieldVal.SetZero()
+		return nil
 	}
 
 	switch v.Format() {
